@@ -76,7 +76,7 @@ Section DictFacts.
 
   (* a | b : b wins, a shows through where b has no key *)
   Lemma dget_fold_dset k (b : list (string * V)) : forall a, NoDup (map fst b) ->
-    dget k (fold_left (fun acc kv => dset (fst kv) (snd kv) acc) b a)
+    dget k (fold_left (fun (acc : list (string * V)) (kv : string * V) => dset (fst kv) (snd kv) acc) b a)
     = match dget k b with Some v => Some v | None => dget k a end.
   Proof.
     induction b as [|[k' v'] r IH]; intros a Hnd; simpl; [reflexivity|].
@@ -89,11 +89,11 @@ Section DictFacts.
     - destruct (dget k r); [reflexivity|]. apply dget_dset_other. intro; subst. now rewrite String.eqb_refl in E.
   Qed.
 
-  Lemma dget_dmerge k a b : NoDup (map fst b) ->
+  Lemma dget_dmerge k (a b : list (string * V)) : NoDup (map fst b) ->
     dget k (dmerge a b) = match dget k b with Some v => Some v | None => dget k a end.
   Proof. apply dget_fold_dset. Qed.
 
-  Lemma dset_fresh k v d : ~ In k (map fst d) -> dset k v d = d ++ [(k, v)].
+  Lemma dset_fresh k v d : ~ In k (map fst d) -> dset k v d = (d ++ [(k, v)])%list.
   Proof.
     induction d as [|[k' v'] r IH]; simpl; intro H; [reflexivity|].
     destruct (String.eqb k k') eqn:E.
@@ -103,7 +103,7 @@ Section DictFacts.
 
   Lemma fold_dset_fresh (b : list (string * V)) : forall a, NoDup (map fst b) ->
     (forall k, In k (map fst b) -> ~ In k (map fst a)) ->
-    fold_left (fun acc kv => dset (fst kv) (snd kv) acc) b a = a ++ b.
+    fold_left (fun (acc : list (string * V)) (kv : string * V) => dset (fst kv) (snd kv) acc) b a = (a ++ b)%list.
   Proof.
     induction b as [|[k v] r IH]; intros a Hnd Hdis; simpl; [now rewrite app_nil_r|].
     inversion Hnd as [|? ? Hni Hnd']; subst.
@@ -229,10 +229,9 @@ Theorem bind_reflects_instance (s : settings) : NoDup (map fst (env_of (s_env s)
   let b := bind no_settings no_settings s in
   b_exe b = s_exe s /\ b_nprocs b = n_or (s_nprocs s) 1 /\ b_mem b = n_or (s_mem s) 1000 /\ b_env b = env_of (s_env s).
 Proof.
-  intro Hnd. unfold bind; simpl. repeat split.
-  - destruct (s_nprocs s) as [[|p]|]; reflexivity.
-  - destruct (s_mem s) as [[|p]|]; reflexivity.
-  - unfold dmerge at 1. simpl. now apply dmerge_nil_l.
+  intro Hnd. unfold bind; simpl.
+  split; [reflexivity|]. split; [reflexivity|]. split; [reflexivity|].
+  unfold dmerge at 1. simpl. now apply dmerge_nil_l.
 Qed.
 
 (* the mutating variant violates the property (this is what the code did before the repair) *)
@@ -276,7 +275,7 @@ Section RunLocalFacts.
   Qed.
 
   (* executed commands = a prefix of the command list *)
-  Lemma loop_prefix e cs : forall f, exists rest, map cmd_of (loop e cs f) ++ rest = cs.
+  Lemma loop_prefix e cs : forall f, exists rest, (map cmd_of (loop e cs f) ++ rest)%list = cs.
   Proof.
     induction cs as [|[c nm] r IH]; intro f; simpl; [now exists []|].
     destruct (r_code (exec c e (open_caps nm f)) =? 0)%Z; simpl.
@@ -296,7 +295,7 @@ Section RunLocalFacts.
   Qed.
 
   (* the loop stops early only at a failing command, and a failing command is always the last one executed *)
-  Lemma loop_all_ok_complete e cs : forall f, Forall ok (loop e cs f) -> length (loop e cs f) = length cs.
+  Lemma loop_all_ok_complete e cs : forall f, Forall ok (loop e cs f) -> List.length (loop e cs f) = List.length cs.
   Proof.
     induction cs as [|[c nm] r IH]; intro f; simpl; [reflexivity|].
     destruct (r_code (exec c e (open_caps nm f)) =? 0)%Z eqn:E; intro H.
@@ -304,7 +303,7 @@ Section RunLocalFacts.
     - inversion H as [|? ? Hok _]; subst. unfold ok in Hok. simpl in Hok. rewrite Hok in E. discriminate.
   Qed.
 
-  Lemma loop_length_le e cs : forall f, length (loop e cs f) <= length cs.
+  Lemma loop_length_le e cs : forall f, List.length (loop e cs f) <= List.length cs.
   Proof.
     induction cs as [|[c nm] r IH]; intro f; simpl; [lia|].
     destruct (r_code (exec c e (open_caps nm f)) =? 0)%Z; simpl; [specialize (IH (close_caps nm (exec c e (open_caps nm f)))); lia|lia].
@@ -316,20 +315,16 @@ Section RunLocalFacts.
     destruct (r_code (exec c e (open_caps nm f)) =? 0)%Z; discriminate.
   Qed.
 
-  Lemma last_code_spec (sts : list step) : last_code cmd sts = match sts with [] => None | _ => Some (r_code (st_res (last sts (hd_dummy sts)))) end
-  with hd_dummy (sts : list step) : step.
-  Abort.
-
-  Lemma last_code_app (l : list step) (s : step) : last_code cmd (l ++ [s]) = Some (r_code (st_res s)).
+  Lemma last_code_app (l : list step) (s : step) : last_code (l ++ [s])%list = Some (r_code (st_res s)).
   Proof. unfold last_code. now rewrite rev_unit. Qed.
 
-  Lemma last_code_none (l : list step) : last_code cmd l = None -> l = [].
+  Lemma last_code_none (l : list step) : last_code l = None -> l = [].
   Proof.
     destruct l as [|a l] using rev_ind; [reflexivity|]. rewrite last_code_app. discriminate.
   Qed.
 
   (* all succeeded <-> the last executed one succeeded (given the loop invariant) *)
-  Lemma all_ok_iff_last e cs f c : last_code cmd (loop e cs f) = Some c ->
+  Lemma all_ok_iff_last e cs f c : last_code (loop e cs f) = Some c ->
     (Forall ok (loop e cs f) <-> c = 0%Z).
   Proof.
     pose proof (loop_init_ok e cs f) as Hin. revert Hin.
@@ -338,6 +333,36 @@ Section RunLocalFacts.
     split.
     - intro H. apply Forall_app in H. destruct H as [_ H]. now inversion H.
     - intro H. apply Forall_app. split; [exact Hin|]. constructor; [exact H|constructor].
+  Qed.
+
+  Lemma loop_short_fails e cs : forall f, List.length (loop e cs f) < List.length cs ->
+    exists l s, loop e cs f = (l ++ [s])%list /\ r_code (st_res s) <> 0%Z.
+  Proof.
+    induction cs as [|[c nm] r IH]; intro f; simpl; [lia|].
+    destruct (r_code (exec c e (open_caps nm f)) =? 0)%Z eqn:E; simpl; intro H.
+    - destruct (IH (close_caps nm (exec c e (open_caps nm f)))) as [l [s [Hl Hs]]]; [lia|].
+      rewrite Hl. eexists (_ :: l), s. split; [reflexivity|exact Hs].
+    - exists [], (mk_step c nm (open_caps nm f) (exec c e (open_caps nm f)) (close_caps nm (exec c e (open_caps nm f)))).
+      split; [reflexivity|]. simpl. now apply Z.eqb_neq.
+  Qed.
+
+  (* "runs the commands in order ..., stops at the first failing command" *)
+  Theorem loop_spec e cs f :
+    let sts := loop e cs f in
+    (exists rest, (map cmd_of sts ++ rest)%list = cs)
+    /\ chained e f sts
+    /\ Forall ok (removelast sts)
+    /\ (Forall ok sts -> List.length sts = List.length cs)
+    /\ (List.length sts < List.length cs -> exists l s, sts = (l ++ [s])%list /\ r_code (st_res s) <> 0%Z)
+    /\ (cs <> [] -> sts <> []).
+  Proof.
+    cbv zeta. repeat split.
+    - apply loop_prefix.
+    - apply loop_chained.
+    - apply loop_init_ok.
+    - apply loop_all_ok_complete.
+    - apply loop_short_fails.
+    - apply loop_nonempty.
   Qed.
 
   (* ---- returned files = requested /\ existing, byte for byte *)
@@ -365,37 +390,39 @@ Section RunLocalFacts.
 
   (* ---- the body: exit status, recorded exit code, files, hash *)
   Definition all_succeeded (inp : jobinput cmd) (sts : list step) : Prop :=
-    length sts = length (ji_cmds inp) /\ Forall ok sts.
+    List.length sts = List.length (ji_cmds inp) /\ Forall ok sts.
 
   Theorem body_done_facts base inp st out sts :
     body cmd exec hash base inp = (Done st out, sts) ->
-    let f0 := materialise cmd (ji_files inp) in
-    let e := overlay cmd base (ji_env inp) in
-    let f := final_fs cmd f0 sts in
+    let f0 := materialise (ji_files inp) in
+    let e := overlay base (ji_env inp) in
+    let f := final_fs f0 sts in
     sts = loop e (ji_cmds inp) f0
-    /\ ((st = 0%Z) <-> (all_succeeded inp sts /\ forall n, In n (requested cmd inp) -> dget n f <> None))
-    /\ ((jo_exitcode out = 0%Z) <-> (all_succeeded inp sts /\ forall n, In n (requested cmd inp) -> dget n f <> None))
-    /\ (forall n, dget n (jo_files out) = if existsb (String.eqb n) (requested cmd inp) then dget n f else None)
+    /\ ((st = 0%Z) <-> (all_succeeded inp sts /\ forall n, In n (requested inp) -> dget n f <> None))
+    /\ ((jo_exitcode out = 0%Z) <-> (all_succeeded inp sts /\ forall n, In n (requested inp) -> dget n f <> None))
+    /\ (forall n, dget n (jo_files out) = if existsb (String.eqb n) (requested inp) then dget n f else None)
     /\ jo_hash out = hash inp
-    /\ read_caps cmd ".out" f (names_of cmd sts) [] = Some (jo_stdouts out)
-    /\ read_caps cmd ".err" f (names_of cmd sts) [] = Some (jo_stderrs out).
+    /\ read_caps ".out" f (names_of sts) [] = Some (jo_stdouts out)
+    /\ read_caps ".err" f (names_of sts) [] = Some (jo_stderrs out).
   Proof.
     unfold body. cbv zeta.
-    set (f0 := materialise cmd (ji_files inp)). set (e := overlay cmd base (ji_env inp)).
-    set (l := loop e (ji_cmds inp) f0). set (f := final_fs cmd f0 l).
-    destruct (read_caps cmd ".out" f (names_of cmd l) []) as [so|] eqn:Eo; [|destruct (read_caps cmd ".err" f (names_of cmd l) []); discriminate].
-    destruct (read_caps cmd ".err" f (names_of cmd l) []) as [se|] eqn:Ee; [|discriminate].
-    destruct (last_code cmd l) as [c|] eqn:Ec; [|discriminate].
+    set (f0 := materialise (ji_files inp)). set (e := overlay base (ji_env inp)).
+    set (l := loop e (ji_cmds inp) f0). set (f := final_fs f0 l).
+    destruct (read_caps ".out" f (names_of l) []) as [so|] eqn:Eo; [|destruct (read_caps ".err" f (names_of l) []); discriminate].
+    destruct (read_caps ".err" f (names_of l) []) as [se|] eqn:Ee; [|discriminate].
+    destruct (last_code l) as [c|] eqn:Ec; [|discriminate].
     intros [= <- <- <-]. fold f.
     pose proof (all_ok_iff_last e (ji_cmds inp) f0 c Ec) as Hall. fold l in Hall.
     assert (Hsucc : all_succeeded inp l <-> c = 0%Z).
     { unfold all_succeeded. rewrite <- Hall. split; [tauto|]. intro H. split; [|exact H]. now apply loop_all_ok_complete. }
-    pose proof (all_present_spec f (requested cmd inp)) as Hpres.
+    pose proof (all_present_spec f (requested inp)) as Hpres.
     split; [reflexivity|]. split; [|split; [|split; [|split; [|split]]]]; simpl.
-    - rewrite Hsucc, <- Hpres. destruct (c =? 0)%Z eqn:E0; destruct (all_present f (requested cmd inp)); simpl;
-        try apply Z.eqb_eq in E0; try apply Z.eqb_neq in E0; split; intros; try tauto; try lia; try (destruct H; congruence).
-    - rewrite Hsucc, <- Hpres. destruct (c =? 0)%Z eqn:E0; destruct (all_present f (requested cmd inp)); simpl;
-        try apply Z.eqb_eq in E0; try apply Z.eqb_neq in E0; split; intros; try tauto; try lia; try (destruct H; congruence).
+    - rewrite Hsucc, <- Hpres. destruct (Z.eqb_spec c 0) as [E0|E0]; destruct (all_present f (requested inp)); simpl;
+        split; intro H;
+        first [ discriminate | (split; [assumption|reflexivity]) | (exfalso; congruence) | (destruct H; congruence) ].
+    - rewrite Hsucc, <- Hpres. destruct (Z.eqb_spec c 0) as [E0|E0]; destruct (all_present f (requested inp)); simpl;
+        split; intro H;
+        first [ discriminate | (split; [assumption|reflexivity]) | (exfalso; congruence) | (destruct H; congruence) ].
     - intro n. apply collect_spec.
     - reflexivity.
     - exact Eo.
@@ -406,10 +433,6 @@ Section RunLocalFacts.
   (* names of the capture files of a job *)
   Definition cap_files (cs : list (cmd * option string)) : list string :=
     flat_map (fun c => match snd c with Some n => [n ++ ".out"; n ++ ".err"] | None => [] end) cs.
-
-  Variable protected : list string.
-  (* the commands leave the capture files alone *)
-  Hypothesis exec_keeps : forall c e f x, In x protected -> dget x (r_fs (exec c e f)) = dget x f.
 
   Lemma open_caps_other nm f x : (forall n, nm = Some n -> x <> n ++ ".out" /\ x <> n ++ ".err") ->
     dget x (open_caps nm f) = dget x f.
@@ -425,6 +448,14 @@ Section RunLocalFacts.
     destruct (H n eq_refl) as [H1 H2]. now rewrite !dget_dset_other.
   Qed.
 
+  Lemma close_caps_own n r :
+    dget (n ++ ".out") (close_caps (Some n) r) = Some (r_out r) /\ dget (n ++ ".err") (close_caps (Some n) r) = Some (r_err r).
+  Proof.
+    simpl. split.
+    - rewrite dget_dset_other by apply out_ne_err. apply dget_dset_same.
+    - apply dget_dset_same.
+  Qed.
+
   Lemma cap_name_distinct n m : n <> m ->
     (n ++ ".out" <> m ++ ".out" /\ n ++ ".out" <> m ++ ".err") /\ (n ++ ".err" <> m ++ ".out" /\ n ++ ".err" <> m ++ ".err").
   Proof.
@@ -435,25 +466,172 @@ Section RunLocalFacts.
     - apply str_app_inj_l in E. contradiction.
   Qed.
 
-  (* a protected capture file of a name that no step in `sts` carries survives the steps *)
-  Lemma chained_keeps e x : In x protected -> forall sts f,
-    chained e f sts ->
-    (forall s n, In s sts -> st_name s = Some n -> x <> n ++ ".out" /\ x <> n ++ ".err") ->
-    dget x (final_fs cmd f sts) = dget x f.
-  Proof.
-    intros Hx. induction sts as [|s r IH]; intros f Hch Hnm; [reflexivity|].
-    destruct Hch as (Hb & Hr & Ha & Hch).
-    assert (Hs : dget x (st_after s) = dget x f).
-    { rewrite Ha, close_caps_other by (intros n Hn; apply (Hnm s n); [now left|exact Hn]).
+  Section Captures.
+    Variable protected : list string.
+    (* the commands leave the capture files alone *)
+    Hypothesis exec_keeps : forall c e f x, In x protected -> dget x (r_fs (exec c e f)) = dget x f.
+
+    (* a protected file that is not a capture file of any step in `sts` survives the steps *)
+    Lemma chained_keeps e x : In x protected -> forall sts f,
+      chained e f sts ->
+      (forall s n, In s sts -> st_name s = Some n -> x <> n ++ ".out" /\ x <> n ++ ".err") ->
+      dget x (final_fs f sts) = dget x f.
+    Proof.
+      intros Hx. induction sts as [|s r IH]; intros f Hch Hnm; [reflexivity|].
+      destruct Hch as (Hb & Hr & Ha & Hch). simpl.
+      rewrite IH; [|exact Hch|intros s' n Hs' Hn; apply (Hnm s' n); [now right|exact Hn]].
+      rewrite Ha, close_caps_other by (intros n Hn; apply (Hnm s n); [now left|exact Hn]).
       rewrite Hr, exec_keeps by exact Hx. rewrite Hb.
-      apply open_caps_other. intros n Hn. apply (Hnm s n); [now left|exact Hn]. }
-    unfold final_fs. simpl map.
-    destruct r as [|s2 r2].
-    - simpl. exact Hs.
-    - change (last (st_after s :: map (st_after (cmd:=cmd)) (s2 :: r2)) f) with (last (map (st_after (cmd:=cmd)) (s2 :: r2)) f).
-      assert (Hl : forall d d', last (map (st_after (cmd:=cmd)) (s2 :: r2)) d = last (map (st_after (cmd:=cmd)) (s2 :: r2)) d').
-      { intros d d'. generalize (s2 :: r2) as l'. intro l'. destruct l' as [|a l'] using rev_ind; simpl.
-        - admit_not_needed. }
-      exact I.
-  Abort.
+      apply open_caps_other. intros n Hn. apply (Hnm s n); [now left|exact Hn].
+    Qed.
+
+    Lemma in_names_of (sts : list step) n : In n (names_of sts) <-> exists s, In s sts /\ st_name s = Some n.
+    Proof.
+      unfold names_of. rewrite in_flat_map. split; intros [s [Hs Hn]]; exists s; split; try exact Hs.
+      - destruct (st_name s) as [m|]; [destruct Hn as [->|[]]; reflexivity|destruct Hn].
+      - rewrite Hn. now left.
+    Qed.
+
+    (* after the loop the capture files of every executed named command hold exactly what that command wrote *)
+    Lemma final_captures e : forall sts f,
+      chained e f sts -> NoDup (names_of sts) ->
+      (forall s n, In s sts -> st_name s = Some n -> In (n ++ ".out") protected /\ In (n ++ ".err") protected) ->
+      forall s n, In s sts -> st_name s = Some n ->
+        dget (n ++ ".out") (final_fs f sts) = Some (r_out (st_res s))
+        /\ dget (n ++ ".err") (final_fs f sts) = Some (r_err (st_res s)).
+    Proof.
+      induction sts as [|s0 r IH]; intros f Hch Hnd Hprot s n Hs Hn; [destruct Hs|].
+      destruct Hch as (Hb & Hr & Ha & Hch). simpl.
+      destruct Hs as [<-|Hs].
+      - (* the head: its captures are written now and survive the rest *)
+        assert (Hnotin : ~ In n (names_of r)).
+        { unfold names_of in Hnd. simpl in Hnd. rewrite Hn in Hnd. simpl in Hnd. now inversion Hnd. }
+        assert (Hother : forall s' m, In s' r -> st_name s' = Some m -> n <> m).
+        { intros s' m Hs' Hm E. subst m. apply Hnotin. apply in_names_of. now exists s'. }
+        destruct (Hprot s0 n (or_introl eq_refl) Hn) as [Po Pe].
+        rewrite !(chained_keeps e _) with (f := st_after s0); try assumption.
+        + rewrite Ha, Hn. apply close_caps_own.
+        + intros s' m Hs' Hm. apply (cap_name_distinct n m). now apply (Hother s').
+        + intros s' m Hs' Hm. apply (cap_name_distinct n m). now apply (Hother s').
+      - apply IH; try assumption.
+        + unfold names_of in *. simpl in Hnd. destruct (st_name s0); [now inversion Hnd|exact Hnd].
+        + intros s' m Hs' Hm. apply (Hprot s' m); [now right|exact Hm].
+    Qed.
+
+    (* reading the captures back *)
+    Lemma read_caps_spec ext f : forall names acc d, read_caps ext f names acc = Some d ->
+      (forall n, In n names -> dget n d = dget (n ++ ext) f) /\ (forall n, ~ In n names -> dget n d = dget n acc).
+    Proof.
+      induction names as [|n0 r IH]; intros acc d H; simpl in H.
+      - injection H as <-. split; [intros n []|reflexivity].
+      - destruct (dget (n0 ++ ext) f) as [v|] eqn:E; [|discriminate].
+        destruct (IH _ _ H) as [I1 I2]. split.
+        + intros n [<-|Hn].
+          * destruct (in_dec string_dec n0 r) as [Hin|Hni]; [now apply I1|].
+            rewrite I2 by exact Hni. rewrite dget_dset_same. now symmetry.
+          * now apply I1.
+        + intros n Hn. rewrite I2 by (intro; apply Hn; now right).
+          apply dget_dset_other. intro; subst. apply Hn. now left.
+    Qed.
+
+    Lemma read_caps_total ext f : forall names acc, (forall n, In n names -> dget (n ++ ext) f <> None) ->
+      exists d, read_caps ext f names acc = Some d.
+    Proof.
+      induction names as [|n0 r IH]; intros acc H; simpl; [now eexists|].
+      destruct (dget (n0 ++ ext) f) as [v|] eqn:E; [|exfalso; apply (H n0); [now left|exact E]].
+      apply IH. intros n Hn. apply H. now right.
+    Qed.
+
+    (* stdout/stderr are recorded for every executed named command, with what it wrote, and for nothing else;
+       and reading them back cannot fail *)
+    Theorem captures_exact e cs f0 :
+      let sts := loop e cs f0 in
+      NoDup (names_of sts) ->
+      (forall x, In x (cap_files cs) -> In x protected) ->
+      exists so se,
+        read_caps ".out" (final_fs f0 sts) (names_of sts) [] = Some so
+        /\ read_caps ".err" (final_fs f0 sts) (names_of sts) [] = Some se
+        /\ (forall s n, In s sts -> st_name s = Some n ->
+              dget n so = Some (r_out (st_res s)) /\ dget n se = Some (r_err (st_res s)))
+        /\ (forall n, ~ In n (names_of sts) -> dget n so = None /\ dget n se = None).
+    Proof.
+      intros sts Hnd Hprot.
+      assert (Hp : forall s n, In s sts -> st_name s = Some n -> In (n ++ ".out") protected /\ In (n ++ ".err") protected).
+      { intros s n Hs Hn. destruct (loop_prefix e cs f0) as [rest Hrest]. fold sts in Hrest.
+        assert (Hin : In (st_cmd s, Some n) cs).
+        { rewrite <- Hrest. apply in_or_app. left. rewrite <- Hn. change (st_cmd s, st_name s) with (cmd_of s). now apply in_map. }
+        split; apply Hprot; unfold cap_files; apply in_flat_map; exists (st_cmd s, Some n); (split; [exact Hin|simpl; tauto]). }
+      pose proof (final_captures e sts f0 (loop_chained e cs f0) Hnd Hp) as Hfin.
+      destruct (read_caps_total ".out" (final_fs f0 sts) (names_of sts) []) as [so Hso].
+      { intros n Hn. apply in_names_of in Hn. destruct Hn as [s [Hs Hsn]]. destruct (Hfin s n Hs Hsn) as [-> _]. discriminate. }
+      destruct (read_caps_total ".err" (final_fs f0 sts) (names_of sts) []) as [se Hse].
+      { intros n Hn. apply in_names_of in Hn. destruct Hn as [s [Hs Hsn]]. destruct (Hfin s n Hs Hsn) as [_ ->]. discriminate. }
+      exists so, se. split; [exact Hso|]. split; [exact Hse|].
+      destruct (read_caps_spec _ _ _ _ _ Hso) as [O1 O2]. destruct (read_caps_spec _ _ _ _ _ Hse) as [E1 E2].
+      split.
+      - intros s n Hs Hn. assert (Hin : In n (names_of sts)) by (apply in_names_of; now exists s).
+        rewrite O1, E1 by exact Hin. now apply Hfin.
+      - intros n Hn. now rewrite O2, E2.
+    Qed.
+  End Captures.
+
+  (* ---- input files and environment *)
+  Lemma materialise_spec l n : NoDup (map fst l) ->
+    dget n (materialise (Some l)) = dget n l.
+  Proof.
+    intro H. unfold materialise. rewrite dget_fold_dset by exact H. simpl. now destruct (dget n l).
+  Qed.
+
+  Lemma overlay_spec base o v : NoDup (map fst o) ->
+    dget v (overlay base (Some o)) = match dget v o with Some x => Some x | None => dget v base end.
+  Proof. intro H. unfold overlay. now apply dget_dmerge. Qed.
+
+  (* ---- the whole function *)
+  Lemma run_local_unfold scratch td base inp :
+    run_local cmd exec hash scratch td base inp
+    = mk_rr cmd (fst (body cmd exec hash base inp)) (snd (body cmd exec hash base inp))
+        (flat_map (fun s => r_ext (st_res s)) (snd (body cmd exec hash base inp))) scratch.
+  Proof.
+    unfold run_local. destruct (body cmd exec hash base inp) as [o sts]. simpl. now rewrite String.eqb_refl.
+  Qed.
+
+  Lemma body_steps base inp :
+    snd (body cmd exec hash base inp) = loop (overlay base (ji_env inp)) (ji_cmds inp) (materialise (ji_files inp)).
+  Proof.
+    unfold body. cbv zeta.
+    destruct (read_caps ".out" _ _ []); [|reflexivity].
+    destruct (read_caps ".err" _ _ []); [|reflexivity].
+    destruct (last_code _); reflexivity.
+  Qed.
+
+  Theorem run_local_steps scratch td base inp :
+    let r := run_local cmd exec hash scratch td base inp in
+    rr_steps r = loop (overlay base (ji_env inp)) (ji_cmds inp) (materialise (ji_files inp))
+    /\ rr_ext r = flat_map (fun s => r_ext (st_res s)) (rr_steps r)
+    /\ rr_outcome r = fst (body cmd exec hash base inp).
+  Proof. cbv zeta. rewrite run_local_unfold. simpl. now rewrite body_steps. Qed.
+
+  (* an output is written unless there is no command at all or a capture file has disappeared *)
+  Theorem body_crash_iff base inp :
+    let sts := snd (body cmd exec hash base inp) in
+    fst (body cmd exec hash base inp) = Crashed <->
+    (ji_cmds inp = [] \/ read_caps ".out" (final_fs (materialise (ji_files inp)) sts) (names_of sts) [] = None
+                       \/ read_caps ".err" (final_fs (materialise (ji_files inp)) sts) (names_of sts) [] = None).
+  Proof.
+    cbv zeta. rewrite body_steps. unfold body. cbv zeta.
+    set (l := loop _ _ _).
+    destruct (read_caps ".out" _ (names_of l) []) as [so|] eqn:Eo; [|simpl; tauto].
+    destruct (read_caps ".err" _ (names_of l) []) as [se|] eqn:Ee; [|simpl; tauto].
+    destruct (last_code l) as [c|] eqn:Ec; simpl.
+    - split; [discriminate|]. intros [H|[H|H]]; try discriminate.
+      exfalso. unfold l in Ec. rewrite H in Ec. discriminate.
+    - split; [|reflexivity]. intros _. left.
+      apply last_code_none in Ec. destruct (ji_cmds inp) as [|c0 r]; [reflexivity|].
+      exfalso. apply (loop_nonempty (overlay base (ji_env inp)) (c0 :: r) (materialise (ji_files inp))); [discriminate|exact Ec].
+  Qed.
+
+  (* the scratch directory is left as it was found, whatever happened inside (returned, raised, exit()) *)
+  Theorem scratch_restored scratch td base inp :
+    rr_scratch (run_local cmd exec hash scratch td base inp) = scratch.
+  Proof. now rewrite run_local_unfold. Qed.
 End RunLocalFacts.
